@@ -55,7 +55,7 @@ CHECKS = {
     "C14": (
         "fault_enumeration",
         "TLA+ Lifecycle.tla (interpreter-state projection, proxies, override ledgers, fault disjunct in every state, cleanup of the "
-        "finally clause) model-checked by TLC incl. two named as-implemented deviations; bound to the code by exhaustive fault "
+        "finally clause, run-time writes to overridable properties, three nested scenarios) model-checked by TLC incl. three named as-implemented deviations (each found in the code and repaired); bound to the code by exhaustive fault "
         "enumeration (site x occurrence x ending x follow-up operation) with before/after snapshots and clean-process digests, and "
         "by trace validation of wrapper-recorded events with LifecycleTrace.tla",
         "For every fault schedule the real program raises at that point; the veneer globals named by the property, every tracked "
@@ -63,7 +63,8 @@ CHECKS = {
         "digest a clean process gives, and the recorded begin/create/start/override/stop/read-back/destroy/unproxy/end trace must be "
         "a behaviour of Lifecycle.tla (ideal constants); TLC also shows the ideal model satisfies Quiescent/SceneUntouched/"
         "RevertOnStop and that each named deviation violates one of them.",
-        "One program template in two variants; model-import faults and Simulation.destroy faults are not injected; internal run "
+        "One program template (Main > Child > Inner, both children overriding the same property, Child cut short while Inner "
+        "runs, a behaviour assigning the property before it is overridden) in two variants; model-import faults and Simulation.destroy faults are not injected; internal run "
         "flags are diagnostic only; known finding current-behavior-restored-late.",
         "3/C14",
     ),
@@ -254,32 +255,39 @@ CHECKS = {
         "specification, checks the phase-order action properties and emits the expected event log; the real "
         "Simulator.simulate is driven with the same table and schedules and its create/record/monitor/schedule/behaviour/"
         "exec/simstep/read events, ending type and step, action-log and trajectory lengths must coincide.",
-        "Core fragment only (single top-level scenario without compose block; nested scenarios are not yet modelled); "
-        "conditions are table look-ups; the case->Scenic printer is trusted; exhaustive duration core + seeded random programs.",
+        "Covers the flat fragment and trees of scenario instances (compose blocks, parallel and sequential sub-scenarios, do-for/"
+        "until over scenarios, their monitors/records/terminate statements, objects created by sub-scenario setup blocks and "
+        "`terminate` by their agents, the order of application of the chosen actions); not modelled: override, temporal "
+        "requirements inside scenarios (C11), sensors, recorders; conditions are table look-ups; the case->Scenic printer is "
+        "trusted; exhaustive duration / nested / dynamic-object cores + seeded random programs.",
         "3/C12",
     ),
     "C13": (
         "model_checking",
         "TLA+ Dynamics.tla try/interrupt + guard semantics (Walk/EnterBlock/Unwind/StartBeh) run by TLC per case; replay into the "
         "real simulator with and without raiseGuardViolations, event sequences and endings compared; named as-implemented "
-        "deviation (UnwindReturnImpl) with trigger predicate for the known finding",
+        "deviations (UnwindReturnImpl, invimpl) with trigger predicates for the known findings",
         "Each case (program of the interrupt fragment x step-indexed truth table of interrupt conditions and guards) has exactly "
         "one behaviour in the spec; the real code must produce the same action/log sequence, the same ending, and raise the "
         "right GuardViolation class when asked to. Exhaustive small core (all tables over 4 steps), targeted nested-flow core, "
-        "seeded random nested programs.",
-        "Productive programs only; invariants of a behaviour that is running a sub-behaviour under do-for/do-until/try are kept "
-        "true by the generator (the code re-checks them there, the reference says it does not) so that situation is not decided.",
+        "invariant core (invariants broken and restored inside sub-behaviours), compose-level core (try/interrupt in compose "
+        "blocks whose blocks invoke sub-scenarios: resume-where-stopped, suspended and abandoned sub-scenarios), seeded random "
+        "nested programs.",
+        "Productive programs only; the random generator keeps the invariants of a behaviour true while it runs a sub-behaviour "
+        "under do-for/do-until/try (the targeted core decides that situation: known finding invariant-checked-inside-sub-behaviour).",
         "3/C13",
     ),
     "C19": (
         "model_checking",
-        "TLA+ Dynamics.tla choose/shuffle/run-time-draw actions (Pick with exact rational weights) enumerated by TLC; bound to the "
+        "TLA+ Dynamics.tla choose/shuffle/run-time-draw actions (Pick for behaviours, oracle scripts for compose blocks and "
+        "monitors, exact rational weights) enumerated by TLC; bound to the "
         "code by exhaustive scripted-RNG replay of Simulator.simulate (every RNG branch), exact law over runs compared",
         "For each case TLC enumerates every random outcome with its exact weight; the scripted-RNG driver executes the real "
         "simulation once per RNG branch with weights computed from the logged random.choices/randint arguments; the two laws over "
         "(event log, ending) must be equal as rationals (hence enabled-set conditioning, weights, exactly-once for shuffle, "
         "deadlock rejection, independence of run-time draws).",
-        "Behaviours only (choose/shuffle inside compose blocks not covered); item sets of size <= 3; scripted random module.",
+        "choose/shuffle over sub-behaviours and over sub-scenarios (compose blocks), run-time draws in behaviours, monitors and "
+        "compose blocks; item sets of size <= 3; random programs cover the behaviour forms only; scripted random module.",
         "3/C19",
     ),
 }
